@@ -19,6 +19,7 @@ from desper.events import EventDispatcher, event_handler
 from desper.logic.world import World
 
 from harness.hb_util import order_hashes
+from harness.reenter import h_reenter
 
 PROPERTY = 'C04'
 
@@ -527,6 +528,11 @@ HARNESSES = {
                    required=['raise-fired', 'disable-fired', 'pending-after-fault', 'released',
                              'switch-in-behind-deferred', 'released-in-later-cycle',
                              'switch-again-with-pending-after-raise']),
+    # World lifecycle callbacks (on_add / on_remove relayed by World) where one callback disables dispatching in the
+    # middle of a multi-callback operation: nothing may run while disabled, everything is released exactly once
+    'lifecycle': dict(fn=h_reenter, nontrivial=['action-0-fired', 'postponed-by-callback'],
+                      required=['action-0-fired', 'postponed-by-callback', 'multi-create', 'multi-delete-immediate',
+                                'multi-delete-at-process']),
 }
 
 NESTED_Q = PLAIN_PLANS + ((DISABLE, 'a'), (DISABLE, 'b'))
@@ -541,12 +547,14 @@ TIERS = {
         ('queue', dict(q=2, cycles=2, plans=NESTED_Q),
          {'required': QUEUE_REQ + ['callback-dispatch-deferred-behind-pending']}),
         ('switch', dict(q=1)),
+        ('lifecycle', dict(L=2, actions=1, bystander=False)),
     ],
     'thorough': [
         ('queue', dict(q=3, cycles=3)),
         ('queue', dict(q=3, cycles=2, plans=NESTED_T),
          {'required': QUEUE_REQ + ['callback-dispatch-deferred-behind-pending', 'callback-dispatch-immediate']}),
         ('switch', dict(q=2)),
+        ('lifecycle', dict(L=3, actions=1, bystander=False), {'required': ['armed-callback-was-postponed']}),
     ],
 }
 BUDGET_S = {'quick': 120, 'thorough': 1500}
@@ -568,10 +576,11 @@ BOUNDS = {
              '2 faulty enable cycles + clean release + empty release; fault kind none/raise/nested disable at '
              'symbolic position p in [0, 2*events]; 6 program actions between cycles; '
              'nested level: 1-2 events, 2 cycles, the callback that disables dispatching at position p also dispatches '
-             'a or b (deferred behind everything still pending); switch: w1->w2->w1 through desper.switch + SimpleLoop.switch, <=1 extra event on w2, <=1 on w1',
+             'a or b (deferred behind everything still pending); switch: w1->w2->w1 through desper.switch + SimpleLoop.switch, <=1 extra event on w2, <=1 on w1; '
+             'lifecycle: World operations on one entity (6 component sets, L=2 of 7 operations) where the first on_add or on_remove of one armed component disables dispatching',
     'thorough': 'queue: as quick with 3 faulty cycles (up to 5 events in total); nested level: 1-3 events, 2 cycles, '
                 'the callback at the fault position additionally dispatches a or b after a nested disable, before '
-                'raising, or without any fault (immediate nested delivery); switch: <=2 extra events on w2',
+                'raising, or without any fault (immediate nested delivery); switch: <=2 extra events on w2; lifecycle: L=3',
 }
 ASSUMPTIONS = [
     'the gate works per event: the remaining handlers of the event that is being delivered when a callback '
@@ -590,6 +599,10 @@ ASSUMPTIONS = [
     '(then it is the newest event: it comes out after every older undelivered one); while the flag reads True it is '
     'an ordinary immediate delivery to the registered listeners, nested in place, and never delivered again',
     'the dispatcher subclass only counts dispatch() calls and refuses the call above the bound',
+    'lifecycle harness (harness/reenter.py): the on_add / on_remove callbacks a World relays for create_entity, add_component, '
+    'remove_component, delete_entity (immediate, or deferred + process) count as callbacks of the statement: once one of them '
+    'has disabled dispatching, no later callback of the same operation may start before the flag reads True again, and each is '
+    'delivered exactly once by the end (multiset comparison, order inside one operation is free)',
 ]
 OUTSIDE = ['callbacks that re-enable dispatching while a release is running; more than one event dispatched from '
            'inside callbacks of one release, or from callbacks other than the one at the fault position',
